@@ -41,7 +41,8 @@ CONSTANTS
     \* One switch per known deviation: FALSE = the behaviour of the current code (the deviation is
     \* modelled and named), TRUE = the behaviour after the proposed repair (/verif/proposed/C13-fix-*.diff);
     \* when a repair is committed its switch is set to TRUE in spec/mc/*.cfg and the finding closed.
-    FixedStar, FixedFinalInString, FixedNestedLiteral
+    FixedStar, FixedFinalInString, FixedNestedLiteral,
+    BugBuiltinsFirst       \* sensitivity switch: get_name_from_globals looks in builtins before the module
 
 X(k, id, args) == [k |-> k, id |-> id, args |-> args]
 V(t, n, a) == [t |-> t, n |-> n, a |-> a]
@@ -60,7 +61,12 @@ PList(args) == X("plist", "", args)         \* [a, b]  (parameter list of Callab
 Star(e) == X("star", "", <<e>>)             \* *e
 
 NameLeaves == {"int", "str", "None", "A", "B", "object", "Any", "NT", "TD", "P", "T", "TB", "TC",
-               "list", "dict", "tuple", "type", "List", "Dict", "Tuple", "Type", "Callable", "Sequence"}
+               "list", "dict", "tuple", "type", "List", "Dict", "Tuple", "Type", "Callable", "Sequence",
+               "TimeoutError", "Warning"}
+\* TimeoutError and Warning are classes the realised module DEFINES; they shadow the builtins of the same
+\* name.  The class object named "builtins.X" is the builtin one (never written in an expression; it is what
+\* a wrong lookup order would find).
+ShadowingNames == {"TimeoutError", "Warning"}
 
 LeafExpr(l) ==
     CASE l = "Lit1"      -> Sub("Literal", <<Cn("int:1")>>)
@@ -145,7 +151,8 @@ HasNestedLiteral(e) ==
 (*   fwd(e) ForwardRef; strobj(e) a plain str; const ellipsis emptytuple   *)
 (*   pylist;  raise = evaluation raised TypeError                          *)
 (***************************************************************************)
-ClassNames == {"int", "str", "object", "A", "B", "P", "list", "dict", "tuple", "type"}
+ClassNames == {"int", "str", "object", "A", "B", "P", "list", "dict", "tuple", "type",
+               "TimeoutError", "Warning", "builtins.TimeoutError", "builtins.Warning"}
 BareNames == {"List", "Dict", "Tuple", "Type", "Callable", "Sequence"}
 SpecialNames == {"Optional", "Union", "Literal", "Annotated", "Final", "ClassVar", "Unpack"}
 
@@ -482,6 +489,22 @@ ImplRuntimeRoute(e) == ImplRt(PyEval(e), FALSE)
 \* --- route "str": type_from_runtime("e")
 ImplStringRoute(e) == ImplFwd(e, FALSE)
 
+\* --- routes "sigrt" / "sig563": get_argspec(f).parameters[x].annotation (arg_spec.py:508) evaluates the
+\* annotation found on the function object -- the object, or under PEP 563 its source text -- with
+\* arg_spec.AnnotationsContext, whose get_name (arg_spec.py:188) is Context.get_name_from_globals
+\* (annotations.py:176): the function's module globals first, then builtins.  (Routes rt / str use
+\* _DefaultContext.get_name, annotations.py:918, with the same order; the checker's visitor resolves names
+\* through its scopes.)  Names are only looked up by pyanalyze INSIDE strings; elsewhere CPython did it.
+\* Ref: the meaning of a name is Python's -- module globals before builtins (typing.get_type_hints) -- which
+\* is NameObj(id).  ImplSigNames(e, instr) is e with every name replaced by what that lookup finds.
+RECURSIVE ImplSigNames(_, _)
+ImplSigNames(e, instr) ==
+    IF e.k = "name"
+    THEN (IF instr /\ BugBuiltinsFirst /\ e.id \in ShadowingNames THEN Nm("builtins." \o e.id) ELSE e)
+    ELSE X(e.k, e.id, [i \in 1..Len(e.args) |-> ImplSigNames(e.args[i], instr \/ e.k = "str")])
+ImplSigRuntimeRoute(e) == ImplRt(PyEval(ImplSigNames(e, FALSE)), FALSE)
+ImplSigStringRoute(e) == ImplFwd(ImplSigNames(e, TRUE), FALSE)
+
 \* --- route "ast".  name_check_visitor.py:2483 value_of_annotation evaluates the expression with the
 \* checker's ordinary expression visitor; every name of the vocabulary is a KnownValue and the
 \* subscripts are executed (composite_from_subscript :4985-5000, check_call(allow_call=True)), so the
@@ -538,8 +561,9 @@ RefSame(v, w) == v.t # "Raised" /\ w.t # "Raised" /\ RefCanon(v) = RefCanon(w)
 (***************************************************************************)
 Valid(e) == PyEval(e).k # "raise"      \* CPython can evaluate e (needed to have a runtime object at all)
 
-RoutesAgreeOn(rt, st, as) == RefSame(rt, st) /\ RefSame(rt, as) /\ RefSame(st, as)
-RoutesAgree(e) == RoutesAgreeOn(ImplRuntimeRoute(e), ImplStringRoute(e), ImplAstRoute(e))
+AllSame(vs) == \A i \in 1..Len(vs) : RefSame(vs[1], vs[i])
+RoutesAgree(e) == AllSame(<<ImplRuntimeRoute(e), ImplStringRoute(e), ImplAstRoute(e),
+                            ImplSigRuntimeRoute(e), ImplSigStringRoute(e)>>)
 
 \* (a) a starred element inside a subscript (PEP 646 tuple[int, *tuple[str, ...]]): the string route has
 \*     no visit_Starred (NotImplementedError), the runtime route drops the unpacking, the checker's own
@@ -604,7 +628,7 @@ Next == PushLeaf \/ ApplyUnary \/ ApplyBinary \/ ApplyTop \/ Finish
 \* cannot evaluate (e.g. int | "A") is still a legal annotation in a PEP 563 module, where only the string
 \* route and the checker's visitor see it.
 RoutesAgreeWhereDefined(e) ==
-    IF Valid(e) THEN RoutesAgree(e) ELSE RefSame(ImplStringRoute(e), ImplAstRoute(e))
+    IF Valid(e) THEN RoutesAgree(e) ELSE AllSame(<<ImplStringRoute(e), ImplAstRoute(e), ImplSigStringRoute(e)>>)
 AnnotationRoutesAgree == stage = "done" => (RoutesAgreeWhereDefined(case) \/ KnownDeviation(case))
 \* the strict property is violated (sensitivity / documentation of the findings)
 AnnotationRoutesAgreeStrict == stage = "done" => RoutesAgreeWhereDefined(case)
